@@ -9,18 +9,25 @@ import claims, props  # noqa: E402
 P = {json.loads(l)["id"]: json.loads(l) for l in open(os.path.join(ROOT, "properties.jsonl"))}
 
 
+def prop_files(pid):
+    d = os.path.join(ROOT, "lean", "Coraza", "Properties")
+    return [os.path.join(d, f) for f in sorted(os.listdir(d)) if re.fullmatch(re.escape(pid) + r"[a-z]?\.lean", f)]
+
+
 def theorems(pid):
-    src = os.path.join(ROOT, "lean", "Coraza", "Properties", pid + ".lean")
-    if not os.path.exists(src):
-        return []
-    return re.findall(r"^theorem\s+([^\s(:{\[]+)", open(src).read(), re.M)
+    out = []
+    for src in prop_files(pid):
+        out += re.findall(r"^theorem\s+([^\s(:{\[]+)", re.sub(r"/-.*?-/", "", open(src).read(), flags=re.S), re.M)
+    return out
 
 
 def model_files(pid):
-    src = os.path.join(ROOT, "lean", "Coraza", "Properties", pid + ".lean")
-    if not os.path.exists(src):
-        return []
-    return re.findall(r"^import\s+(\S+)", open(src).read(), re.M)
+    out = []
+    for src in prop_files(pid):
+        for m in re.findall(r"^import\s+(\S+)", open(src).read(), re.M):
+            if m not in out and not m.startswith("Coraza.Properties."):
+                out.append(m)
+    return out
 
 
 def per_property():
@@ -36,7 +43,7 @@ def per_property():
         out.append(f"*Claim.* {c['text']}\n")
         out.append(f"*Limits.* {c['note']}\n")
         ths = theorems(pid)
-        out.append(f"*Lean.* `lean/Coraza/Properties/{pid}.lean` (imports {', '.join('`'+m+'`' for m in model_files(pid))}); "
+        out.append(f"*Lean.* " + ", ".join("`lean/Coraza/Properties/" + os.path.basename(f) + "`" for f in prop_files(pid)) + f" (imports {', '.join('`'+m+'`' for m in model_files(pid))}); "
                    f"{len(ths)} theorems: " + ", ".join("`" + t + "`" for t in ths) + ".\n")
         engs = ", ".join(f"`{e['name']}`" + (f" ({e.get('quick')} quick / {e.get('thorough')} thorough cases)" if 'quick' in e else "")
                          for e in cfg.get("engines", []))
